@@ -237,10 +237,10 @@ Definition post_events (id : Z) (kind : Z) : list Z :=
   else if id =? 8 then (if ok then [0] else [])         (* reconnect: on_state_change(-> Connected) *)
   else [].
 
-(* every listener API of the thirteen layers goes through EventListeners::emit (catch_unwind around the
-   listener and around the drop of its panic payload, fix afefac0); reconnect's two callbacks (crate
-   feature `tracing`) go through the helper `observe`, which does the same (fixes 484f229, 56b9388) *)
-Definition guarded_of (id : Z) : guard := GCatchDrop.
+(* every listener API of the thirteen layers goes through EventListeners::emit, reconnect's two callbacks
+   (crate feature `tracing`) through the helper `observe`; both catch the listener's panic and drop its
+   payload with core::events::drop_panic_payload (fixes 484f229, afefac0, 56b9388, d1b49ff) *)
+Definition guarded_of (id : Z) : guard := GCatchLoop.
 
 (* reconnect has one callback per kind: listener 0 is on_state_change (kind 0), listener 1 is
    on_reconnect (kind 1), further listeners are not registered *)
@@ -276,9 +276,10 @@ Fixpoint run_lstack (ids : list Z) (ls : list listener) (inner : final)
 Definition NK : nat := 6.
 
 (* panic mask: bit i = listener i panics (String payload), bit i + 4 = it panics with a payload whose
-   Drop panics *)
+   Drop panics, bit i + 8 = with a payload whose Drop panics with such a payload again, 3 levels deep *)
 Definition listener_of (mask : Z) (i : nat) : listener :=
-  fun _ => if Z.testbit mask (Z.of_nat i + 4) then Bombs
+  fun _ => if Z.testbit mask (Z.of_nat i + 8) then Bombs 3
+           else if Z.testbit mask (Z.of_nat i + 4) then Bombs 1
            else if Z.testbit mask (Z.of_nat i) then Panics else Returns.
 
 Fixpoint zip_app {A} (a b : list (list A)) : list (list A) :=
